@@ -22,15 +22,19 @@
    Not proved (checked on every run by the correspondence oracles instead):
      - trim_idempotent for all programs WITHOUT a method filter.  Missing: that [needed] is
        stable under trimming (a simulation between the run on p and the run on the
-       renumbered output).  With a filter the statement is false:
-       [C16_trim_not_idempotent_with_filter].
-     - trim_resolves (the output passes ResolveSymbols): the correspondence check evaluates
-       C05's model [Resolve.resolve_program] on the stripped observed output and compares
-       with the observed output (oracle code 5); no theorem links it to [trim].
-     - the converse of the method filter theorem (every method selected by markService's
-       own rule is kept) and termination / absence of Go panics on well-formed programs
-       (the theorems assume the outcome [Trimmed]; the correspondence check reports
-       OutOfFuel as code 9 and has never seen it). *)
+       renumbered output: positions of definitions and includes shift, lookups by name must
+       find the corresponding definition, and the second resolution must reproduce Used /
+       Name2Category).  With a filter the statement is false:
+       [C16_trim_not_idempotent_with_filter_refuted].
+     - trim_resolves in terms of C05's [Resolve.resolve_program]: proved here is that no
+       reference of the output dangles ([C16_trim_resolves_partial],
+       [C16_base_service_survives_partial]); missing is completeness of the resolver model
+       (see there).  Oracle 5 evaluates the resolver model on every observed output.
+     - the method filter: both halves are proved ([..._only_matching_partial],
+       [..._complete_partial]) but they differ (plain match vs. markService's prefix rule,
+       raw vs. Go names), which is the known finding; termination / absence of Go panics on
+       well-formed programs is not proved (the theorems assume the outcome [Trimmed]; the
+       correspondence check reports OutOfFuel as code 9 and has never seen it). *)
 From Coq Require Import List Bool Arith.
 From Verif Require Import Base.Bytes Idl.Ast Idl.AstUtil Idl.Trim Idl.TrimSpec Idl.TrimWitness Idl.TrimFacts.
 Import ListNotations.
@@ -161,6 +165,81 @@ Theorem C16_method_filter_only_matching_partial :
                   fn_selected matches c p F si s0 fn.
 Proof. exact method_filter_only_matching. Qed.
 Print Assumptions C16_method_filter_only_matching_partial.
+
+(* method_filter_exact, the "if" half (match_go_name off): after marking, every service of the
+   main file is COMPLETE: each of its methods selected by markService's rule
+   (MatchString && (name == pattern || !HasPrefix(name, pattern))) is marked with its service, and
+   when it extends another service every method of every service reached through `extends`
+   (itself included) whose name qualified with the MAIN service's name matches a pattern is
+   marked with its service.  With match_go_name the statement is false for services first
+   reached by traceExtendMethod (it matches raw names); see the known finding. *)
+Theorem C16_method_filter_complete_partial :
+  forall matches cp c p, filtering c = true -> c_go_name c = false ->
+  forall fuel fin f i s,
+    mark_ast matches cp c p fuel = Ok fin -> prog_main p = Some f -> nth_error (f_services f) i = Some s ->
+    complete matches c p fin (main_name p) i s.
+Proof. exact method_filter_complete. Qed.
+Print Assumptions C16_method_filter_complete_partial.
+
+(* ... and a method marked together with its service is in the trimmed program *)
+Theorem C16_marked_function_in_output :
+  forall matches compiles cp c p, filtering c = true ->
+  forall q fin T j ts g,
+    trim matches compiles cp c p = Trimmed q -> marks_of matches cp c p fin ->
+    both_marked fin T j -> fn_at p T j ts g ->
+    exists qf sv, In (fst T, qf) q /\ In sv (f_services qf) /\ sv_name sv = sv_name ts /\ In g (sv_functions sv).
+Proof. exact marked_function_in_output. Qed.
+Print Assumptions C16_marked_function_in_output.
+
+(* trim_resolves, the part that does not depend on a model of the resolver (all
+   configurations): no reference of the trimmed program dangles.  For every definition left
+   in the output, every definition its types denote in the input (struct-like, enum, typedef,
+   through container element and key types) and every include they are written through is left
+   in the output.  The full statement `resolve_program (strip (trim p)) = Ok (trim_resolved p)`
+   additionally needs COMPLETENESS of C05's resolver model (that a program whose every
+   reference denotes an existing definition of the right category, with distinct global
+   names per file, is accepted): Idl/ResolveFacts.v proves properties of successful results
+   only.  Checked instead on every case (oracle 5: [Resolve.resolve_program] on the stripped
+   observed output gives the observed output). *)
+Theorem C16_trim_resolves_partial :
+  forall matches cp c p, wf p ->
+  forall q fin,
+    mark_ast matches cp c p (prog_size p) = Ok fin ->
+    reach cp c p false (prog_size p) fin (main_name p) [] = Ok q ->
+  forall F qf, In (F, qf) q ->
+    (forall k s m, In s (sl_list k qf) -> In m (tys_nodes p F (map fd_type (sl_fields s))) -> node_survives p q m) /\
+    (forall m, In m (tys_nodes p F (map td_type (f_typedefs qf))) -> node_survives p q m) /\
+    (forall m, In m (tys_nodes p F (map co_type (f_constants qf))) -> node_survives p q m) /\
+    (forall sv fn m, In sv (f_services qf) -> In fn (sv_functions sv) ->
+                     In m (tys_nodes p F (function_types fn)) -> node_survives p q m).
+Proof. exact references_survive. Qed.
+Print Assumptions C16_trim_resolves_partial.
+
+(* without a method filter the base service of a kept service and the include it is written
+   through are left in the output as well *)
+Theorem C16_base_service_survives_partial :
+  forall matches cp c p, wf p ->
+  forall q fin,
+    mark_ast matches cp c p (prog_size p) = Ok fin ->
+    reach cp c p false (prog_size p) fin (main_name p) [] = Ok q ->
+  forall F qf i s0 b via,
+    filtering c = false -> In (F, qf) q -> service_at p F i s0 -> marked fin (NService F i) = true ->
+    base_of p F s0 = Some (b, via) ->
+    node_survives p q b /\ forall m, In m via -> node_survives p q m.
+Proof. exact base_service_survives. Qed.
+Print Assumptions C16_base_service_survives_partial.
+
+(* trim_idempotent, the half that is proved: a file in which traversal keeps every include,
+   every struct-like, every service with all its functions (and clears no `extends`) comes out
+   unchanged except that Include.Used and Name2Category are reset (and recomputed by the second
+   resolution).  So trimming the trimmed program changes nothing as soon as the second run
+   keeps everything, which by C16_trim_sound applied to the trimmed program means: every
+   definition and include of the trimmed program is needed IN the trimmed program.  That
+   stability of [needed] under trimming is the part not proved (see the header). *)
+Theorem C16_trim_idempotent_partial :
+  forall cp c p st F f, everything_kept cp c p st F f -> trim_file cp c p st F f = Ok (reset_file f).
+Proof. exact trim_file_fixpoint. Qed.
+Print Assumptions C16_trim_idempotent_partial.
 
 (* trim_idempotent is FALSE with a method filter (known finding): on the real resolved AST of
      main.thrift: include "a.thrift"  service S extends a.Base { void f()  void fooBar() }
